@@ -619,7 +619,7 @@ func c15MetaPairs(c *core.Ctx) [][2]uint16 {
 }
 
 func c15Direct(c *core.Ctx) {
-	total := c.N(20000, 2000000)
+	total := c.N(20000, 6000000)
 	idx := 0
 	next := func() (int, bool) { i := idx; idx++; return i, c.Mine(i) }
 	// (1) every column count 1..600 with both id widths
@@ -1155,7 +1155,7 @@ func c15DiffKey(h *hist.History, exp []hist.ExpTx, versions []*hist.Table, d *ru
 }
 
 func c15Stream(c *core.Ctx) {
-	nh := c.N(500, 12000)
+	nh := c.N(500, 30000)
 	for idx := 0; idx < nh; idx++ {
 		if !c.Mine(idx) {
 			continue
